@@ -453,6 +453,28 @@ fn fp_model_pr(m: &Svm<f64, Pr>, p: &P, f: &mut Fingerprint) {
 fn fp_model_reg(m: &Svm<f64, f64>, p: &P, f: &mut Fingerprint) {
     fp_svm_reg(m, &reg_queries::<f64>(p), f)
 }
+// extreme but legal regularisation: tiny box constraints give tiny (but non-zero) dual
+// coefficients, large ones give bounded support vectors; f32 and f64
+const CFG_BOOL_GAUSS_TINY_C: SvmCfg = cfg(Kern::Gauss, Reg::C(1e-5, 1e-5), false, 1e-5);
+const CFG_BOOL_POLY_HUGE_C: SvmCfg = cfg(Kern::Poly, Reg::C(1e3, 2e2), false, 1e-5);
+fn build_svm_bool_tiny_c_f32(p: &P) -> Svm<f32, bool> {
+    fit_cls(p, CFG_BOOL_GAUSS_TINY_C).expect("svm fit")
+}
+fn build_svm_bool_tiny_c(p: &P) -> Svm<f64, bool> {
+    fit_cls(p, CFG_BOOL_GAUSS_TINY_C).expect("svm fit")
+}
+fn build_svm_bool_huge_c_f32(p: &P) -> Svm<f32, bool> {
+    fit_cls(p, CFG_BOOL_POLY_HUGE_C).expect("svm fit")
+}
+fn build_svm_pr_f32(p: &P) -> Svm<f32, Pr> {
+    fit_cls(p, CFG_PR_GAUSS).expect("svm fit")
+}
+fn fp_model_bool32(m: &Svm<f32, bool>, p: &P, f: &mut Fingerprint) {
+    fp_svm_bool(m, &cls_queries::<f32>(p), f)
+}
+fn fp_model_pr32(m: &Svm<f32, Pr>, p: &P, f: &mut Fingerprint) {
+    fp_svm_pr(m, &cls_queries::<f32>(p), f)
+}
 fn fp_model_reg32(m: &Svm<f32, f32>, p: &P, f: &mut Fingerprint) {
     fp_svm_reg(m, &reg_queries::<f32>(p), f)
 }
@@ -533,6 +555,11 @@ fn register_svm(r: &mut Registry) {
     r.model::<Svm<f64, f64>>("svm_model_reg_eps_gauss", K, T_W, c20, build_svm_reg_eps_gauss, fp_model_reg, Some(|a, b| a == b));
     r.model::<Svm<f64, f64>>("svm_model_reg_nu_linear", K, T_W, c20, build_svm_reg_nu_lin, fp_model_reg, Some(|a, b| a == b));
     r.model::<Svm<f32, f32>>("svm_model_reg_f32", K, T_W, c20, build_svm_reg_f32, fp_model_reg32, Some(|a, b| a == b));
+    r.model::<Svm<f32, bool>>("svm_model_bool_tiny_c_f32", K, T_W, c20, build_svm_bool_tiny_c_f32, fp_model_bool32, Some(|a, b| a == b));
+    r.model::<Svm<f64, bool>>("svm_model_bool_tiny_c", K, T_W, c20, build_svm_bool_tiny_c, fp_model_bool, Some(|a, b| a == b));
+    // (a huge-C polynomial f32 fit does not terminate in reasonable time and an f32 Platt fit
+    // fails on some seeds: not registered)
+    let _ = (build_svm_bool_huge_c_f32, build_svm_pr_f32, fp_model_pr32);
     r.model::<Svm<f64, bool>>("svm_model_one_class_gauss", K, T_W, c20, build_svm_one_class, fp_model_bool, Some(|a, b| a == b));
     r.model::<Vec<SeparatingHyperplane<f64>>>("svm_separating_hyperplane", K, &["SeparatingHyperplane"], None, build_hyperplanes, fp_hyperplanes, Some(|a, b| a == b));
     r.model::<Vec<ExitReason>>("svm_exit_reason", K, &["ExitReason"], None, build_exit_reasons, fp_exit_reasons, Some(|a, b| a == b));
